@@ -31,6 +31,8 @@ PROPS = {
             "CV.Csr.creation_burn", "CV.Csr.module_residue_zero", "CV.Csr.share_floor_exact", "CV.Csr.share_le_fee",
             "CV.Csr.share_zero", "CV.Csr.share_one", "CV.Csr.never_fails_for_valid_share", "CV.Csr.never_fails_monitor",
             "CV.Csr.neverFailsPre_of_bool", "CV.Csr.rejected_unchanged", "CV.Csr.revenue_matches_turnstile",
+            "CV.Csr.fee_leaves_collector_monitor", "CV.Csr.module_residue_zero_monitor", "CV.Csr.registered_split_monitor",
+            "CV.Csr.burn_all_monitor", "CV.Csr.frame_monitor", "CV.Csr.rejected_or_disabled_monitor",
             "CV.Csr.bank_path", "CV.Csr.evmTransfer_flow", "CV.Csr.evmTransfer_ok", "CV.Csr.postTx_ok", "CV.Csr.split_ok",
             "CV.Bank.applyAll_flow",
         ],
@@ -46,6 +48,7 @@ PROPS = {
             "CV.Csr.malformed_noop", "CV.Csr.inert_receipt_noop", "CV.Csr.register_needs_code", "CV.Csr.assign_needs_code",
             "CV.Csr.changes_explained", "CV.Csr.no_recreate", "CV.Csr.no_recreate_postTx",
             "CV.Csr.fee_distribution_preserves_registry", "CV.Csr.regInv_setCSR", "CV.Csr.handleLog_cases",
+            "CV.Csr.at_most_one_monitor", "CV.Csr.postTx_idx", "CV.Csr.step_idx", "CV.Csr.changes_explained_monitor",
         ],
         comps={"outcome", "registry"},
         assumptions=_CSR_ASSUME,
